@@ -42,7 +42,7 @@ class C04(Prop):
     k2_invs = {'srv'}          # the T2 invariants (Inv/AllRun.invs_b) this property answers for on real snapshots
     num = 4
     regions = {'quick': [('core', 100), ('block', 140), ('routers', 40), ('renege', 40), ('sched', 60), ('sched_block', 60),
-                         ('preempt', 50), ('schedpre', 40), ('dyn', 30), ('all', 40), ('spf', 30), ('spf_sched', 50), ('spf_block', 30), ('sched_split', 70), ('core_split', 30), ('schedpre_block', 120)]}
+                         ('preempt', 50), ('schedpre', 40), ('dyn', 30), ('all', 40), ('spf', 30), ('spf_sched', 50), ('spf_block', 30), ('sched_split', 70), ('core_split', 30), ('schedpre_block', 120), ('schedpre_tandem', 60)]}
     rule = ('one case = one observed run; non-trivial = some server served >= 3 customers and one of them was blocked for a '
             'positive time; distinct = distinct configuration hashes')
     clause_text = {30: 'server/customer attachment is not a bijection, busy flag wrong, or on-duty count != c',
